@@ -24,7 +24,7 @@ RULE = (
 ASSUMPTIONS = [
     "annotations sit on instruction/data-cell bytes (any byte of them); an annotation of a removed byte must disappear",
     "symbolic expression = (position, symbol identity, addend, attributes, symbolicExpressionSizes entry)",
-    "CFI directives are covered by C08; x86-64 ELF only",
+    "CFI directives are covered by C08; x86-64 ELF plus one ARM64 ELF module for relocation-modifier expressions (adrp / :lo12: with addends)",
 ]
 BOUNDS = {"quick": {"set_size": 2, "annotation_subsets": 2}, "thorough": {"set_size": 3, "annotation_subsets": 2}}
 CAP_S = {"quick": 150, "thorough": 2400}
@@ -52,6 +52,24 @@ def make_spec(variant, pie):
         blocks = [A, DD, B, Cb]
         return scen.spec_of(blocks, pie=pie)
     return scen.spec_of([A, B, Cb], data_blocks=[DD], pie=pie)
+
+
+ARM_PATCHES = {
+    "ord": [["p", 0]],
+    "page+lo12": [["adrp", "DD"], ["addlo12", "DD"], ["p", 0]],
+    "lo12+addend": [["adrp", "DD", 16], ["addlo12", "DD", 16]],
+    "lo12-code": [["p", 0], ["addlo12", "C", 4]],
+    "own-label": [["lab", ".Lx"], ["p", 0], ["addlo12", ".Lx", 8], ["jcc", ".Lx"]],
+    "call": [["call", "ext"], ["p", 0]],
+}
+
+
+def make_arm_spec():
+    A = {"n": "A", "k": "c", "i": [["o", 1], ["adrp", "DD"], ["addlo12", "DD", 8], ["call", "C"]], "f": "f", "e": True}
+    B = scen.code_block("B", [2, 3], ["jcc", "A"], f="f")
+    Cb = scen.code_block("C", [4], ["ret"], f="g", e=True)
+    DD = {"n": "DD", "k": "d", "i": [["d", 0xD1], ["d", 0xD2], ["d", 0xD3], ["d", 0xD4], ["q", "B"]], "f": None, "e": False}
+    return scen.spec_of([A, B, Cb], data_blocks=[DD], target="arm64-elf")
 
 
 def byte_offsets(spec):
@@ -82,10 +100,13 @@ def annotate(spec, placement):
 
 def atoms_for(spec, rich):
     out = []
+    arm = spec["target"].startswith("arm64")
     for s in spec["sections"]:
         for b in s["blocks"]:
             n = len(b["i"])
-            if b["k"] == "c":
+            if b["k"] == "c" and arm:
+                pl = list(ARM_PATCHES.values())
+            elif b["k"] == "c":
                 pl = list(PATCHES.values()) if rich else [PATCHES["ord"], PATCHES["lea_data"]]
             else:
                 pl = [DPATCHES["bytes"]]
@@ -129,6 +150,7 @@ def check(spec, mods):
 def tasks(tier):
     t = []
     n = BOUNDS[tier]["set_size"]
+    t.append(("rich", "arm64", False, [], n))
     for variant in ("separate-data", "data-in-text"):
         for pie in (False, True):
             base = make_spec(variant, pie)
@@ -153,7 +175,7 @@ def task_group(task):
 def run_task(task):
     mode, variant, pie, placement, n = task
     res = TaskResult()
-    spec = annotate(make_spec(variant, pie), [tuple(p) for p in placement])
+    spec = make_arm_spec() if variant == "arm64" else annotate(make_spec(variant, pie), [tuple(p) for p in placement])
     atoms = atoms_for(spec, rich=(mode == "rich"))
     inp = Lg.flatten(spec, Lg.tokens_of(spec), set())
     for mods in scen.mod_sets(spec, atoms, n, orders="same-offset"):
